@@ -108,7 +108,18 @@ func (fs *SimFS) mutate(op, path string, size, off int64, tornAt int64, afterPre
 	fs.Events++
 	fs.ByClass[key]++
 	if fs.Trace != nil {
-		fs.Trace.Add("fs %s %s[%d] %s %d", op, cls, ev.ClassN, ev.Path, size)
+		// Sizes of manifest appends are left out of the trace: the engine logs
+		// value-log heads of several buckets in Go map order (vlog.go updateHead),
+		// which cannot be pinned; the events keep their class and counter.
+		tsize, tpath := size, ev.Path
+		if cls == "manifest" {
+			tsize = 0
+		}
+		if cls == "vlog" || cls == "vlogdir" {
+			// value-log buckets are visited in Go map order (vlog.write, close)
+			tsize, tpath = 0, cls
+		}
+		fs.Trace.Add("fs %s %s[%d] %s %d", op, cls, ev.ClassN, tpath, tsize)
 	}
 	if fs.Fail != nil {
 		if err := fs.Fail(ev); err != nil {
